@@ -143,7 +143,7 @@ func (rd *reader) closeBody(rule string) {
 	noStatus := c.P.ConstInt("CloseNoStatusReceived")
 	ok, why := true, "every handleClose call with a received code carries isValidReceivedCloseCode(code) and utf8.ValidString(reason), code and reason taken from this frame's payload"
 	n := 0
-	opts := core.Opts{Unroll: 0, Inline: func(f *ssa.Function, d int) bool { return f == rd.setRem },
+	opts := core.Opts{Unroll: 0, Inline: rd.inl(),
 		Pure: func(f *ssa.Function) bool { return f == valid }}
 	c.explore(rule, rd.advance, opts, func(p *core.Path) {
 		for i := range p.Events {
@@ -202,7 +202,7 @@ func (rd *reader) closeBody(rule string) {
 func (rd *reader) controlPayload(p *core.Path, i int) *core.Term {
 	var res *core.Term
 	for k := 0; k < i; k++ {
-		if ev := &p.Events[k]; ev.Depth == 0 && callsStatic(ev, rd.read) {
+		if ev := &p.Events[k]; callsStatic(ev, rd.read) {
 			res = p.X.ExtractOf(ev.Result, 0, nil)
 		}
 	}
@@ -386,10 +386,11 @@ func (rd *reader) remainingSign(rule string) {
 	// callers of setReadRemaining: result checked unless the argument is provably non-negative
 	for _, g := range []*ssa.Function{rd.advance, rd.mrRead} {
 		ok, why := true, "every setReadRemaining call has a provably non-negative argument or its error result is returned before any further read"
-		c.explore(rule, g, core.Opts{Unroll: 0}, func(p *core.Path) {
+		inl := rd.inl()
+		c.explore(rule, g, core.Opts{Unroll: 0, Inline: func(f *ssa.Function, d int) bool { return f != rd.setRem && inl(f, d) }}, func(p *core.Path) {
 			for i := range p.Events {
 				ev := &p.Events[i]
-				if !callsStatic(ev, rd.setRem) || ev.Depth != 0 {
+				if !callsStatic(ev, rd.setRem) {
 					continue
 				}
 				n++
